@@ -119,7 +119,8 @@ func (e *Env) paramIsReader(fn *ssa.Function, i int) bool {
 var pureStd = map[string]bool{
 	"fmt": true, "math": true, "strings": true, "strconv": true, "io": true, "bytes": true, "text/template": true, "errors": true,
 	"sort": true, "slices": true, "maps": true, "unicode": true, "unicode/utf8": true, "regexp": true, "bufio": true, "math/bits": true,
-	"math/big": true, "cmp": true, "iter": true, "html": true,
+	"math/big": true, "cmp": true, "iter": true, "html": true, "encoding/json": true, "encoding/hex": true, "encoding/base64": true,
+	"path": true, "unicode/utf16": true, "container/list": true, "hash/fnv": true, "html/template": true, "io/ioutil": true, "strings/": true,
 	"github.com/goark/errs": true, "golang.org/x/text/language": true,
 }
 
